@@ -18,7 +18,7 @@ func init() {
 	Register("C10", &Info{
 		Run:   runC10,
 		Quick: 10000, Thor: 1500000,
-		Rule: "a world = one fingerprint (every predefined parrot by stratum, randomized seeds, generated consistent specs, fingerprinted copies) x one server choice drawn from what the ON-WIRE hello offers and utls documents as implemented: max version, a single key-exchange group (forcing HelloRetryRequest when no share was sent), a single TLS<=1.2 cipher suite, an ALPN protocol, the certificate key type (ECDSA/RSA/Ed25519); the client Config is in 15% of the worlds one that an earlier connection of another parrot already used; peer = repository server or Go standard-library server; then 1 B-40 kB echoed both ways; a handshake failure is attributed from both sides' errors; non-trivial = a plan knob was applicable; distinct = (fingerprint, knob, value, peer)",
+		Rule: "a world = one fingerprint (every predefined parrot by stratum, randomized seeds, generated consistent specs, fingerprinted copies) x one server choice drawn from what the ON-WIRE hello offers and utls documents as implemented: max version, a single key-exchange group (forcing HelloRetryRequest when no share was sent), a single TLS<=1.2 cipher suite, an ALPN protocol, the certificate key type (ECDSA/RSA/Ed25519); the server holds ECH keys (retry configs for GREASE ECH offers) in 20% of the worlds; the client Config is in 15% of the worlds one that an earlier connection of another parrot already used; peer = repository server or Go standard-library server; then 1 B-40 kB echoed both ways; a handshake failure is attributed from both sides' errors; non-trivial = a plan knob was applicable; distinct = (fingerprint, knob, value, peer)",
 		Assumptions: []string{"'standards-compliant server' = Go standard library crypto/tls (go1.26.8) and the repository's own server; no OpenSSL peer (it would need real sockets outside the simulator)",
 			"TLS 1.3 cipher-suite choice cannot be forced on either Go server; it follows client order and AES hardware",
 			"the Kyber-draft group (0x6399) has no compliant peer in the simulator and is never selected"},
@@ -28,7 +28,7 @@ func init() {
 	Register("C11", &Info{
 		Run:   runC11,
 		Quick: 10000, Thor: 1500000,
-		Rule: "worlds as in C10 plus optional resumption histories (second connection over a shared session cache); in 30% of the worlds the server holds ECH keys although the client offers no real ECH (parrots with a GREASE ECH extension make the server try and fail to open it); for every handshake that completed on both sides: version, cipher suite, ALPN, curve (where both APIs expose it), DidResume, ECHAccepted and server name (== SNI on the wire, empty if none) are compared between the client's ConnectionState and the server's, and ExportKeyingMaterial is compared for drawn label/context/length; non-trivial = handshake completed on both sides; distinct = (fingerprint, plan, resumed, exporter arguments)",
+		Rule: "worlds as in C10 plus optional resumption histories (second connection over a shared session cache; a quarter of them start with a hand-written TLS 1.2 hello without extended_master_secret, whose ticket the second hello then offers); in 30% of the worlds the server holds ECH keys although the client offers no real ECH (parrots with a GREASE ECH extension make the server try and fail to open it); for every handshake that completed on both sides: version, cipher suite, ALPN, curve (where both APIs expose it), DidResume, ECHAccepted and server name (== SNI on the wire, empty if none) are compared between the client's ConnectionState and the server's, and ExportKeyingMaterial is compared for drawn label/context/length; non-trivial = handshake completed on both sides; distinct = (fingerprint, plan, resumed, exporter arguments)",
 		Assumptions: []string{"curve is compared only where both APIs expose it (TLS 1.3 and TLS 1.2 ECDHE full handshakes)"},
 		Real:        []string{"utls client from /repo", "utls tls.Server or std crypto/tls server"},
 		Stub:        []string{"transport, clock, crypto/rand"},
@@ -54,6 +54,9 @@ func runC10(c *Ctx) {
 	c.R.Class = fmt.Sprintf("%s/%s %s", r.F.Kind, r.F.IDI.Name, r.Plan)
 	if r.SharedAfter != "" {
 		c.R.Class += " config-shared-after-" + r.SharedAfter
+	}
+	if r.ServerECH {
+		c.R.Class += " server-has-ech-keys"
 	}
 	c.R.NonTrivial = len(r.Plan.Knobs) > 0
 	if c.R.Violation != nil {
@@ -186,12 +189,20 @@ func runC11(c *Ctx) {
 	if history {
 		nconn = 2
 	}
-	c.R.Class = fmt.Sprintf("%s/%s %s hist=%v rmsni=%v sn=%s late=%v cauth=%d noreneg=%v srvech=%v ekm=%q/%d/%d", f.Kind, f.IDI.Name, plan, history, removeSNI, snShape, lateSNI, clientAuth, noReneg, srvECH, label, len(ctx), length)
+	noEMSFirst := history && ch.Bool(25, "no-ems-first")
+	c.R.Class = fmt.Sprintf("%s/%s %s hist=%v rmsni=%v sn=%s late=%v cauth=%d noreneg=%v srvech=%v noemsfirst=%v ekm=%q/%d/%d", f.Kind, f.IDI.Name, plan, history, removeSNI, snShape, lateSNI, clientAuth, noReneg, srvECH, noEMSFirst, label, len(ctx), length)
+	// a history may start with another fingerprint (Roller style): a hand-written TLS 1.2 hello
+	// without extended_master_secret; the second hello then offers that session's ticket, which a
+	// server has to decline in favour of a full handshake (RFC 7627 5.3) - both sides must agree
+	// on what happened
 	for i := 0; i < nconn; i++ {
 		spec := f.Spec()
 		var cEKM []byte
 		var cEKMErr error
 		sp := &ConnSpec{Name: fmt.Sprintf("c%d", i), ID: f.IDI.ID, Spec: spec, CCfg: mk(), Peer: plan.Peer, SCfg: scfg, StdCfg: stdcfg, Payload: [][]byte{[]byte("ping")}}
+		if noEMSFirst && i == 0 {
+			sp.ID, sp.Spec = tls.HelloCustom, noEMSSpec()
+		}
 		sp.Prep = func(u *tls.UConn) error {
 			if removeSNI {
 				if err := u.RemoveSNIExtension(); err != nil {
